@@ -708,6 +708,10 @@ pub fn recover(
             if packet.receiver != receiver.as_str() {
                 return Err(ContractError::InvalidReceiver {});
             }
+            // A packet listed twice must not be counted (and re-sent) twice
+            if packets.iter().any(|p| p.sequence == packet.sequence) {
+                return Err(ContractError::RecoverError {});
+            }
             packets.push(packet);
         }
         packets
